@@ -33,10 +33,21 @@ let nb_result : (n * pmsg option) option ref = ref None
 let opt_rv : int option ref = ref None
 let nb_aio = 9999
 let now_ms = ref 0          (* virtual time: the sum of all advances *)
+(* `aiotmo a<i> <ms>` (ms > 0): the user aio's own timeout.  When a blocking operation is submitted with such
+   an aio its deadline is now + ms; at `advance`, every still-pending aio whose deadline has passed gets the
+   protocol's cancel function with NNG_ETIMEDOUT (what the expire thread does), before the tick.  Scripts that
+   never use aiotmo are unaffected. *)
+let aio_tmo : (int, int) Hashtbl.t = Hashtbl.create 16
+let aio_deadline : (int, int) Hashtbl.t = Hashtbl.create 16
+let arm_aio (a : int) =
+  match Hashtbl.find_opt aio_tmo a with
+  | Some ms -> Hashtbl.replace aio_deadline a (!now_ms + ms)
+  | None -> Hashtbl.remove aio_deadline a
 
 let reset () =
   Hashtbl.reset socks; Hashtbl.reset sock_ctxs; Hashtbl.reset ctx_sock; pipes := [||]; rids := [];
-  dones := []; Hashtbl.reset aio_kind; nb_result := None; now_ms := 0
+  dones := []; Hashtbl.reset aio_kind; nb_result := None; now_ms := 0;
+  Hashtbl.reset aio_tmo; Hashtbl.reset aio_deadline
 
 let rec index_of x l i = match l with [] -> -1 | y :: r -> if x = y then i else index_of x r (i + 1)
 
@@ -280,7 +291,7 @@ let main () =
           let m = { pm_hdr = untok h; pm_body = untok b } in
           if (not nb) && Hashtbl.mem aio_kind a then observe 4 ""
           else begin
-            if not nb then Hashtbl.replace aio_kind a 1;
+            if not nb then (Hashtbl.replace aio_kind a 1; arm_aio a);
             nb_result := None;
             ignore (apply s (PSend (c, n_of_int a, nb, m)));
             run_queue ();
@@ -293,7 +304,7 @@ let main () =
           let a = (match nb, rest with true, _ -> nb_aio | false, a :: _ -> idx a | _ -> failwith "bad recv") in
           if (not nb) && Hashtbl.mem aio_kind a then observe 4 ""
           else begin
-            if not nb then Hashtbl.replace aio_kind a 2;
+            if not nb then (Hashtbl.replace aio_kind a 2; arm_aio a);
             nb_result := None;
             ignore (apply s (PRecv (c, n_of_int a, nb)));
             run_queue ();
@@ -325,7 +336,18 @@ let main () =
            | None -> observe 9 "")
       | "advance" :: ms :: _ ->
           now_ms := !now_ms + int_of_string ms;
+          let due = Hashtbl.fold (fun a d acc -> if d < !now_ms && Hashtbl.mem aio_kind a then (d, a) :: acc else acc) aio_deadline [] in
+          List.iter (fun (_, a) ->
+            Hashtbl.remove aio_deadline a;
+            if Hashtbl.mem aio_kind a then begin
+              Hashtbl.iter (fun s _ -> ignore (apply s (PCancel (n_of_int a, n_of_int 5)))) socks;
+              run_queue ()
+            end) (List.sort compare due);
           Hashtbl.iter (fun s _ -> ignore (apply s (PTick (n_of_int !now_ms)))) socks;
+          observe 0 ""
+      | "aiotmo" :: a :: ms :: _ ->
+          let ms = int_of_string ms in
+          if ms > 0 then Hashtbl.replace aio_tmo (idx a) ms else Hashtbl.remove aio_tmo (idx a);
           observe 0 ""
       | "sleep" :: _ | "poll" :: _ | "aiotmo" :: _ -> observe 0 ""
       | op :: _ -> print_endline ("badop " ^ op)
